@@ -43,4 +43,10 @@ for rid in sorted(os.listdir(ar)) if os.path.isdir(ar) else []:
     finally:
         subprocess.call(['git', '-C', '/repo', 'worktree', 'remove', '--force', wt])
         shutil.rmtree(tmp, ignore_errors=True)
-json.dump(res, open(os.path.join(HERE, 'selftest', 'refactors_result.json'), 'w'), indent=1)
+rp = os.path.join(HERE, 'selftest', 'refactors_result.json')
+if len(sys.argv) > 1 and os.path.isfile(rp):
+    # a partial run updates the entries it ran
+    old = json.load(open(rp))
+    old.update(res)
+    res = old
+json.dump(res, open(rp, 'w'), indent=1, sort_keys=True)
